@@ -589,6 +589,9 @@ func (s *subscriberServer) Seek(
 
 	switch target := req.Target.(type) {
 	case *pubsubpb.SeekRequest_Time:
+		if target.Time.AsTime().IsZero() {
+			return nil, status.Error(codes.InvalidArgument, "Seek time must be a non-zero time")
+		}
 		// FUTURE: do we want to bound how far in the future or past the target can be?
 		action := actions.NewSeekSubscriptionToTime(actions.SeekSubscriptionToTimeParams{
 			Name: req.Subscription,
@@ -607,6 +610,9 @@ func (s *subscriberServer) Seek(
 		}
 		return &pubsubpb.SeekResponse{}, nil
 	case *pubsubpb.SeekRequest_Snapshot:
+		if target.Snapshot == "" {
+			return nil, status.Error(codes.InvalidArgument, "Seek snapshot must be named")
+		}
 		action := actions.NewSeekSubscriptionToSnapshot(actions.SeekSubscriptionToSnapshotParams{
 			SubscriptionName: req.Subscription,
 			SnapshotName:     target.Snapshot,
